@@ -1,5 +1,6 @@
 SPECIFICATION Spec
 CONSTANTS Devs = {"Dev_C12_ParallelRootCid", "Dev_C12_HandlerSelfRecursion"}
-          Cases <- MDev
+          Cases <- MCSel
+          Family = "MDev"
 INVARIANTS TypeOK VisitedSafe VisitedExact DepthShortest FetchedExact LocalExact HandlerCidRight
            HandlerCallsRight ProvidedExact ResultRight NoHandlerCrash
